@@ -442,3 +442,139 @@ def descriptor_type_trees(depth, thorough=False):
             lvl.append(('reversed', y))
         levels.append(lvl)
     return levels
+
+
+# ------------------------------------------------------------------------------- vint boundaries (C02)
+def vint_edges(max_bits=64, min_k=1, max_k=9):
+    """Unsigned values around every place where the length of a VIntCoding vint changes or where an
+    encoder's bit/byte arithmetic can slip: 2^(7k) and 2^(7k-1) (k = min_k..max_k) each -1, +0, +1,
+    whole-byte edges 2^(8j)-1 and 2^(8j), 0, 1 and the largest value of `max_bits` bits."""
+    vals = [0, 1, (1 << max_bits) - 1]
+    for k in range(min_k, max_k + 1):
+        for base in (1 << (7 * k - 1), 1 << (7 * k)):
+            vals += [base - 1, base, base + 1]
+    for j in range(1, 9):
+        vals += [(1 << (8 * j)) - 1, 1 << (8 * j)]
+    return sorted(set(v for v in vals if 0 <= v < (1 << max_bits)))
+
+
+def vint_durations():
+    """Durations whose zig-zag components sit on vint_edges: every edge alone in each of the three
+    positions, every same-sign pair of edges in adjacent positions (months+days, days+nanoseconds)
+    and the same edge in all three."""
+    e64 = vint_edges(64)
+    e32 = [u for u in e64 if u < (1 << 32)]
+    s = V.unzigzag
+    vals = []
+    for u in e32:
+        vals += [(s(u), 0, 0), (0, s(u), 0), (s(u), s(u), s(u))]
+    for u in e64:
+        vals.append((0, 0, s(u)))
+    for a in e32:
+        for b in e64:
+            if a == 0 or b == 0 or a % 2 != b % 2:           # zig-zag: odd = negative; one sign per duration
+                continue
+            vals.append((0, s(a), s(b)))
+            if b < (1 << 32):
+                vals.append((s(a), s(b), 0))
+    return _dedup(vals)
+
+
+_sized_memo = {}
+
+
+def sized_element(t, size, variant=0):
+    """A reference value of type t whose serialized form (v3+ layout) is exactly `size` bytes long, or
+    None when the type has no such value (variant 1 of text: two-byte characters)."""
+    key = (t, size, variant)
+    if key not in _sized_memo:
+        x = _sized_element(t, size, variant)
+        if x is not None and len(V.encode(t, x, 4)) != size:
+            raise AssertionError('sized_element(%r, %d) is %d bytes' % (t, size, len(V.encode(t, x, 4))))
+        _sized_memo[key] = x
+    return _sized_memo[key]
+
+
+def _sized_element(t, size, variant):
+    k = t[0]
+    blob = lambda n: None if n < 0 else b'\xab' * n
+    if k in ('text', 'varchar'):
+        if variant:
+            return u'\xe9' * (size // 2) + u'x' * (size % 2)
+        return u'x' * size
+    if k == 'ascii':
+        return 'x' * size
+    if k == 'blob':
+        return blob(size)
+    if k == 'varint':
+        return None if size < 1 else 1 << (8 * (size - 1))
+    if k == 'decimal':
+        if size < 5 or size > 1500:          # str(int) beyond 4300 digits is refused by python
+            return None
+        unscaled = 1 << (8 * (size - 5))
+        return D((0, tuple(int(c) for c in str(unscaled)), -3))
+    if k == 'tuple' and t[1:] == (('blob',),):
+        b = blob(size - 4)
+        return None if b is None else (b,)
+    if k == 'udt' and tuple(ft for _, ft in t[3]) == (('blob',), ('int',)):
+        b = blob(size - 12)
+        return None if b is None else (b, 7)
+    if k == 'list' and t[1] == ('blob',):
+        b = blob(size - 8)
+        return None if b is None else [b]
+    if k == 'map' and t[1:] == (('int',), ('blob',)):
+        b = blob(size - 16)
+        return None if b is None else [(1, b)]
+    if k == 'vector' and t[1:] == (('blob',), 1):
+        for c in range(max(0, size - 9), size):
+            if len(V.uvint_encode(c)) + c == size:
+                return [blob(c)]
+        return None
+    raise ValueError(t)
+
+
+# (element type, largest size generated, sizes above this use the reduced shape/version set in the quick tier)
+VINT_ELEMENT_KINDS = (
+    (('text',), 1 << 22, 1 << 15), (('ascii',), 1 << 22, 1 << 15), (('varchar',), 1 << 15, 1 << 15),
+    (('blob',), 1 << 22, 1 << 15),
+    (('varint',), 1 << 15, 300),           # the driver's varint packer is quadratic in the length
+    (('decimal',), 300, 300),
+    (('tuple', ('blob',)), 1 << 22, 1 << 15), (('list', ('blob',)), 1 << 22, 1 << 15),
+    (('map', ('int',), ('blob',)), 1 << 15, 1 << 15), (udt('tz', (('a', ('blob',)), ('b', ('int',)))), 1 << 15, 1 << 15),
+    (('vector', ('blob',), 1), 1 << 22, 1 << 15),
+)
+VINT_LARGE_VERSIONS = (4, 5)
+VINT_MAX_K = 3             # 2^21 + 1 bytes is the largest element that is materialised
+
+
+def vint_vector_types():
+    """vector<E, n> for every variable-width element kind E and n = 1, 2, 3."""
+    return [('vector', e, n) for e, _, _ in VINT_ELEMENT_KINDS for n in (1, 2, 3)]
+
+
+def vint_vector_values(t, thorough=False):
+    """[(value, protocol versions)] for t = vector<E, n>: one element of every size of
+    vint_edges(k <= VINT_MAX_K) that E can have, in every position of the vector next to ordinary
+    elements, and two boundary-sized elements next to each other.  Sizes above the kind's threshold
+    are generated (quick tier) alone and in the last position of dimension 2 only, for versions 4 and 5."""
+    e, n = t[1], t[2]
+    cap, cheap = [(c, ch) for k, c, ch in VINT_ELEMENT_KINDS if k == e][0]
+    a = pair(e)[0]
+    sizes = [s for s in vint_edges(32, 1, VINT_MAX_K) if s <= cap + 1]
+    variants = (0, 1) if e == ('text',) else (0,)
+    elems = [(s, var, sized_element(e, s, var)) for s in sizes for var in variants if not (var and s > (1 << 15))]
+    elems = [x for x in elems if x[2] is not None]
+    out = []
+    for i, (s, var, x) in enumerate(elems):
+        nxt = elems[(i + 1) % len(elems)][2]
+        full = thorough or s <= cheap
+        pvs = PROTOCOL_VERSIONS if full else VINT_LARGE_VERSIONS
+        if n == 1:
+            shapes = [[x]]
+        elif n == 2:
+            shapes = [[a, x]] + ([[x, nxt], [x, a]] if full else [])
+        else:
+            shapes = [[a, x, a], [x, a, nxt], [a, a, x]] if full else []
+        for v in shapes:
+            out.append((v, pvs))
+    return out
